@@ -17,6 +17,8 @@ import TwSpec
 import TwProofs.Lemmas.SpecSim
 import TwProofs.Lemmas.PrattRoundTrip
 import TwProofs.Lemmas.ParseEval
+import TwProofs.Lemmas.PrattFull
+import TwProofs.Lemmas.PrattFullEval
 
 namespace Tw.C01
 open Tw TwSpec
@@ -175,6 +177,87 @@ example :
     showAt (t .LPAREN "(") (t .RPAREN ")") (fun _ => false) (LOWEST + 1)
       (.bin (t .SUB "-") (.ident (t .IDENT "a")) (.bin (t .SUB "-") (.ident (t .IDENT "b")) (.ident (t .IDENT "c")))) =
     [t .IDENT "a", t .SUB "-", t .LPAREN "(", t .IDENT "b", t .SUB "-", t .IDENT "c", t .RPAREN ")"] := by decide
+
+/-! ### the round trip for the whole expression language -/
+
+/-- **parse ∘ print = id on every expression**: literals, identifiers, prefix `-` `!`, binary
+    operators, the ternary, postfix `++` `--`, `l[i]`, `l.name`, `l.name(args…)`, `[…]`, `{k: v, …}`
+    and parentheses.  The printer `Full.showAt` decides parentheses from the precedence table alone
+    (an operand is bare iff the loop of its position consumes every operator on its left spine and
+    the loop still open at its right end stops at what follows), adds any redundant pairs `extra`
+    asks for, and the model's `parseExpression(LOWEST)` returns exactly the printed tree from every
+    parser state, stopping on the expression's last token and recording no error. -/
+theorem parse_of_print_full (lp rp rbk rbr cm : Token) (hlp : lp.ty = .LPAREN) (hrp : rp.ty = .RPAREN)
+    (hrbk : rbk.ty = .RBRACKET) (hrbr : rbr.ty = .RBRACE) (hcm : cm.ty = .COMMA) (extra : FE → Bool)
+    (e : FE) (hok : e.ok) (k : List Token) (hk : NoIll k) (hstop : StopR LOWEST k) :
+    ∃ N, ∀ f, N ≤ f → ∀ p : PS,
+      parseExpression f LOWEST (p.withToks (Full.showAt lp rp rbk rbr cm extra (LOWEST + 1) e ++ k)) =
+        (e.toExpr, p.withToks (lastTok (Full.showAt lp rp rbk rbr cm extra (LOWEST + 1) e) :: k)) :=
+  Full.parse_print lp rp rbk rbr cm hlp hrp hrbk hrbr hcm extra e hok k hk hstop
+
+/-- redundant parentheses never change the parse (whole language) -/
+theorem redundant_parentheses_do_not_matter_full (lp rp rbk rbr cm : Token) (hlp : lp.ty = .LPAREN) (hrp : rp.ty = .RPAREN)
+    (hrbk : rbk.ty = .RBRACKET) (hrbr : rbr.ty = .RBRACE) (hcm : cm.ty = .COMMA)
+    (extra1 extra2 : FE → Bool) (e : FE) (hok : e.ok) (k : List Token) (hk : NoIll k) (hstop : StopR LOWEST k) :
+    ∃ N, ∀ f, N ≤ f → ∀ p : PS,
+      (parseExpression f LOWEST (p.withToks (Full.showAt lp rp rbk rbr cm extra1 (LOWEST + 1) e ++ k))).1 =
+      (parseExpression f LOWEST (p.withToks (Full.showAt lp rp rbk rbr cm extra2 (LOWEST + 1) e ++ k))).1 :=
+  Full.redundant_parentheses_irrelevant lp rp rbk rbr cm hlp hrp hrbk hrbr hcm extra1 extra2 e hok k hk hstop
+
+/-- two trees with the same minimal printing are the same tree: the grammar is unambiguous on
+    the printer's image -/
+theorem printing_is_injective_full (lp rp rbk rbr cm : Token) (hlp : lp.ty = .LPAREN) (hrp : rp.ty = .RPAREN)
+    (hrbk : rbk.ty = .RBRACKET) (hrbr : rbr.ty = .RBRACE) (hcm : cm.ty = .COMMA)
+    (e1 e2 : FE) (h1 : e1.ok) (h2 : e2.ok) (k : List Token) (hk : NoIll k) (hstop : StopR LOWEST k)
+    (heq : Full.showAt lp rp rbk rbr cm (fun _ => false) (LOWEST + 1) e1 = Full.showAt lp rp rbk rbr cm (fun _ => false) (LOWEST + 1) e2) :
+    e1.toExpr = e2.toExpr :=
+  Full.print_injective lp rp rbk rbr cm hlp hrp hrbk hrbr hcm e1 e2 h1 h2 k hk hstop heq
+
+/-- **parser and evaluator composed, whole language**: the model evaluator's result on the parsed
+    tokens is the denotation `seval` of the printed tree (an error where there is none) -/
+theorem parsed_tokens_evaluate_to_the_denotation_full (lp rp rbk rbr cm : Token) (hlp : lp.ty = .LPAREN) (hrp : rp.ty = .RPAREN)
+    (hrbk : rbk.ty = .RBRACKET) (hrbr : rbr.ty = .RBRACE) (hcm : cm.ty = .COMMA)
+    (extra : FE → Bool) (e : FE) (hok : e.ok) (hcanon : e.canon) (k : List Token) (hk : NoIll k) (hstop : StopR LOWEST k) :
+    ∃ N, ∀ f, N ≤ f → ∀ p : PS, ∀ (fuel : Nat) (c : Ctx) (env : Env), c.custom = [] →
+      Agrees (evalExpr fuel c env
+          (parseExpression f LOWEST (p.withToks (Full.showAt lp rp rbk rbr cm extra (LOWEST + 1) e ++ k))).1)
+        (TwSpec.seval env e.toExpr.toS) :=
+  Full.parse_then_eval_is_denotation lp rp rbk rbr cm hlp hrp hrbk hrbr hcm extra e hok hcanon k hk hstop
+
+/-- the trees of the round trip are the ones `eval_is_denotation` speaks about -/
+theorem printed_trees_are_wellformed (e : FE) (hok : e.ok) (hcanon : e.canon) : Expr.wf e.toExpr := full_wf e hok hcanon
+
+section examples
+private def tk (ty : TT) (s : String) : Token := { ty := ty, lit := b s, pos := {} }
+private def idt (s : String) : FE := .atom (tk .IDENT s)
+private def shw (e : FE) : List Token :=
+  Full.showAt (tk .LPAREN "(") (tk .RPAREN ")") (tk .RBRACKET "]") (tk .RBRACE "}") (tk .COMMA ",") (fun _ => false) (LOWEST + 1) e
+
+/-- non-vacuity: `a.b[0].c(1, x)[2]++` is printed without parentheses … -/
+example :
+    shw (.post (tk .INC "++") (.index (tk .LBRACKET "[")
+      (.call (tk .DOT ".") (tk .IDENT "c") (.index (tk .LBRACKET "[") (.dot (tk .DOT ".") (tk .IDENT "b") (idt "a")) (.atom (tk .INT "0")))
+        (.cons (.atom (tk .INT "1")) (.cons (idt "x") .nil))) (.atom (tk .INT "2")))) =
+    [tk .IDENT "a", tk .DOT ".", tk .IDENT "b", tk .LBRACKET "[", tk .INT "0", tk .RBRACKET "]", tk .DOT ".", tk .IDENT "c",
+     tk .LPAREN "(", tk .INT "1", tk .COMMA ",", tk .IDENT "x", tk .RPAREN ")", tk .LBRACKET "[", tk .INT "2", tk .RBRACKET "]", tk .INC "++"] := by
+  decide
+/-- … `-a.b` is the property of `-a`, `-(a.b)` needs its parentheses, `(-a)[0]` and `(a + b).c` too, `-a++` does not -/
+example : shw (.dot (tk .DOT ".") (tk .IDENT "b") (.pre (tk .SUB "-") (idt "a"))) = [tk .SUB "-", tk .IDENT "a", tk .DOT ".", tk .IDENT "b"] := by
+  decide
+example : shw (.pre (tk .SUB "-") (.dot (tk .DOT ".") (tk .IDENT "b") (idt "a"))) =
+    [tk .SUB "-", tk .LPAREN "(", tk .IDENT "a", tk .DOT ".", tk .IDENT "b", tk .RPAREN ")"] := by decide
+example : shw (.index (tk .LBRACKET "[") (.pre (tk .SUB "-") (idt "a")) (.atom (tk .INT "0"))) =
+    [tk .LPAREN "(", tk .SUB "-", tk .IDENT "a", tk .RPAREN ")", tk .LBRACKET "[", tk .INT "0", tk .RBRACKET "]"] := by decide
+example : shw (.dot (tk .DOT ".") (tk .IDENT "c") (.bin (tk .ADD "+") (idt "a") (idt "b"))) =
+    [tk .LPAREN "(", tk .IDENT "a", tk .ADD "+", tk .IDENT "b", tk .RPAREN ")", tk .DOT ".", tk .IDENT "c"] := by decide
+example : shw (.pre (tk .SUB "-") (.post (tk .INC "++") (idt "a"))) = [tk .SUB "-", tk .IDENT "a", tk .INC "++"] := by decide
+/-- an object literal with an array and a ternary inside -/
+example :
+    shw (.obj (tk .LBRACE "{") (.cons (tk .IDENT "k") (tk .COLON ":") (.arr (tk .LBRACKET "[") (.cons (idt "a") .nil))
+      (.cons (tk .STR "s") (tk .COLON ":") (.tern (tk .QUESTION "?") (tk .COLON ":") (idt "c") (idt "x") (idt "y")) .nil))) =
+    [tk .LBRACE "{", tk .IDENT "k", tk .COLON ":", tk .LBRACKET "[", tk .IDENT "a", tk .RBRACKET "]", tk .COMMA ",",
+     tk .STR "s", tk .COLON ":", tk .IDENT "c", tk .QUESTION "?", tk .IDENT "x", tk .COLON ":", tk .IDENT "y", tk .RBRACE "}"] := by decide
+end examples
 
 /-! ### whole renders, evaluated in the kernel (tests of the composed pipeline, labelled as such) -/
 
